@@ -40,6 +40,7 @@ func sortedKeys[V any](m map[string]V) []string {
 }
 
 var maxEnd = time.Unix(0, models.MaxNanoTime+1).UTC()
+var minStart = time.Unix(0, models.MinNanoTime).UTC()
 
 // Check runs the invariant suite of property C16 on the catalogue after one step.
 func (tr *Tracker) Check(d *meta.Data) []Violation {
@@ -134,7 +135,13 @@ func (tr *Tracker) Check(d *meta.Data) []Violation {
 				}
 				// duration-aligned span
 				dur := tr.sgDur[sg.ID]
-				if dur > 0 {
+				if dur > 0 && sg.StartTime.Equal(minStart) {
+					// the group for the lowest writable instants: its start is clamped to the smallest representable instant
+					// (like the end of the last group is clamped to the largest), the end is still on the duration grid
+					if !sg.EndTime.Equal(sg.EndTime.Truncate(dur)) || sg.EndTime.Sub(sg.StartTime) > dur {
+						add("aligned", "%s: clamped first group spans [%s, %s), its end is not on the grid of the shard duration %s", sloc, sg.StartTime.UTC().Format(time.RFC3339Nano), sg.EndTime.UTC().Format(time.RFC3339Nano), dur)
+					}
+				} else if dur > 0 {
 					if !sg.StartTime.Equal(sg.StartTime.Truncate(dur)) {
 						add("aligned", "%s: start %s is not aligned to the shard duration %s in force when it was created", sloc, sg.StartTime.UTC().Format(time.RFC3339Nano), dur)
 					}
